@@ -20,7 +20,8 @@ NsU == IF SIZE = "q" THEN {<<>>, <<97>>, <<47>>, <<46>>} ELSE {<<>>, <<97>>, <<4
 NameU == IF SIZE = "seq" THEN {<<110>>} ELSE IF SIZE = "q" THEN {<<>>, <<110>>, <<65,95,46,98>>} ELSE {<<>>, <<110>>, <<65,95,46,98>>, <<47,63,35>>, <<453,45,45>>}
 VerU == IF SIZE = "q" THEN {<<>>, <<49>>} ELSE {<<>>, <<49>>, <<64,37>>}
 SubU == IF SIZE = "q" THEN {<<>>, <<115>>, <<46,47,46,46>>} ELSE {<<>>, <<115>>, <<46,47,46,46>>, <<97,47,35>>}
-KeyU == IF SIZE = "q" THEN {<<107>>, <<75>>, <<33>>, <<90>>} ELSE {<<107>>, <<75>>, <<33>>, <<90>>, <<>>, <<97,46,98>>}
+\* "a" sorts before "checksum", the others after it
+KeyU == IF SIZE = "q" THEN {<<107>>, <<75>>, <<33>>, <<90>>, <<97>>} ELSE {<<107>>, <<75>>, <<33>>, <<90>>, <<97>>, <<>>, <<97,46,98>>}
 ValU == IF SIZE = "q" THEN {<<>>, <<118>>} ELSE {<<>>, <<118>>, <<38,61>>}
 \* checksum texts (through with_qualifier): valid non-canonical, malformed
 CkTextU == {<<66,58,48,65,44,97,58,102,70>>, <<122,122>>, <<>>, <<97,58>>}     \* "B:0A,a:fF"  "zz"  ""  "a:"
